@@ -170,14 +170,28 @@ def coordsys_forwarding(run, rule, modules=None, only_callers=None):
     project = run.project
     n = 0
     evs = {}
+    # names of the project functions that take a coordinate system, and the classes whose instances hold one in a field
+    takers = {g.node.name for g in project.py_funcs() if "coordsys" in g.params()}
+    holders = set()
+    for g in project.py_funcs():
+        if getattr(g, "cls", None) is None:
+            continue
+        for x in ast.walk(g.node):
+            if isinstance(x, (ast.Assign, ast.AnnAssign, ast.AugAssign)):
+                for tg in (x.targets if isinstance(x, ast.Assign) else [x.target]):
+                    if isinstance(tg, ast.Attribute) and "coordsys" in tg.attr and isinstance(tg.value, ast.Name) and tg.value.id in ("self", "inst", "cls"):
+                        holders.add((g.module.name, g.cls.name))
     for f in project.py_funcs():
         if "/tests/" in (f.module.relpath or "") or (modules is not None and f.module.name not in modules):
             continue
         if only_callers is not None and f.qual not in only_callers:
             continue
         src_names = {x.attr for x in ast.walk(f.node) if isinstance(x, ast.Attribute)} | {x.id for x in ast.walk(f.node) if isinstance(x, ast.Name)} \
-            | {x.arg for x in ast.walk(f.node) if isinstance(x, ast.keyword) and x.arg}
-        if not any("coordsys" in (nm or "") for nm in src_names) and "ToastCoordinateSystem" not in src_names:
+            | {x.arg for x in ast.walk(f.node) if isinstance(x, ast.keyword) and x.arg} | set(f.params())
+        holds_field = getattr(f, "cls", None) is not None and (f.module.name, f.cls.name) in holders and f.params()[:1] == ["self"]
+        calls_taker = any(isinstance(x, ast.Call) and ((isinstance(x.func, ast.Attribute) and x.func.attr in takers) or (isinstance(x.func, ast.Name) and x.func.id in takers))
+                          for x in ast.walk(f.node))
+        if not any("coordsys" in (nm or "") for nm in src_names) and "ToastCoordinateSystem" not in src_names and not (holds_field and calls_taker):
             continue
         ev = evs.get(f.module.name)
         if ev is None:
@@ -192,7 +206,8 @@ def coordsys_forwarding(run, rule, modules=None, only_callers=None):
         for e in r.events:
             if e.kind == "call" and e.term[1][0] == "attr" and e.term[1][2] == "pop" and e.term[2] and e.term[2][0] == ("const", "coordsys"):
                 popped.add(e.term[1][1])
-        knows = own is not None or any(_mentions_coordsys(e.term) for e in r.events if e.kind in ("call", "assign", "store"))
+        knows = own is not None or holds_field or any(_mentions_coordsys(e.term) for e in r.events if e.kind in ("call", "assign", "store")) \
+            or any(_mentions_coordsys(c) for e in r.events for c in e.pc)
         for e in r.events:
             if e.kind != "call":
                 continue
